@@ -277,8 +277,18 @@ class Gen:
                 tgt, it, bnew = ("tuple", [("name", vs[0]), ("name", vs[1])]), "T(%d, 'nested', %d)" % (self.nk(), rng.randrange(0, 3)), set(vs)
             body, _ = self.block(bound | bnew, depth + 1, budget, True)
             orelse = []
-            if rng.random() < 0.2:
+            if rng.random() < 0.25:
                 orelse, _ = self.block(bound, depth + 1, budget, False)
+                r2 = rng.random()
+                if r2 < 0.35:
+                    # the way out of the function may be the else clause of a loop
+                    orelse.append(("return", self.expr(bound)))
+                elif r2 < 0.55 and getattr(self, "is_generator", False):
+                    orelse.append(("yield", None, self.expr(bound)))
+                elif r2 < 0.7:
+                    w = rng.choice(VARS)
+                    orelse.append(("for", ("name", w), "T(%d, 'list', %d)" % (self.nk(), rng.randrange(0, 3)),
+                                   [("expr", "H(%d, %s)" % (self.nk(), w))], []))
             return ("for", tgt, it, body, orelse), bound
         if kind == "while":
             body, _ = self.block(bound, depth + 1, budget, True)
